@@ -195,3 +195,57 @@ let drv_main () =
           | OExit (c, t) -> Printf.printf "exit %d %s\n" (int_of_nat c) (match t with Some t -> top_id t | None -> "-")
           | OEnd -> print_endline "end") (main env)
     | _ -> failwith ("main: bad line: " ^ String.concat " " toks))
+
+(* ---------- configuration driver ---------- *)
+(* value tokens: n | s<hex> | i<int> | f | b0 | b1 | t[k<hex>=<value>;...]  (table entries separated by ';', key 'o' = non-string key) *)
+let rec parse_value (t : string) : value =
+  match t.[0] with
+  | 'n' -> VNil
+  | 's' -> VStr (str_tok (String.sub t 1 (String.length t - 1)))
+  | 'i' -> VInt (coqz_of_string (String.sub t 1 (String.length t - 1)))
+  | 'f' -> VFloat
+  | 'b' -> VBool (t = "b1")
+  | 't' ->
+      let body = String.sub t 2 (String.length t - 3) in
+      let ents = if body = "" then [] else String.split_on_char ';' body in
+      VTab (List.map (fun e ->
+        match String.index_opt e '=' with
+        | Some i ->
+            let k = String.sub e 0 i and v = String.sub e (i + 1) (String.length e - i - 1) in
+            ((if k = "o" then KOther else KStr (str_tok (String.sub k 1 (String.length k - 1)))), parse_value v)
+        | None -> failwith "table entry") ents)
+  | _ -> failwith ("value token " ^ t)
+
+let parse_stmt (t : string) : stmt =
+  match String.split_on_char ':' t with
+  | ["g"; name; v] -> SGlobal (str_tok name, parse_value v)
+  | ["k"; tab; key; v] -> SKey (str_tok tab, (if key = "o" then KOther else KStr (str_tok key)), parse_value v)
+  | _ -> failwith ("stmt token " ^ t)
+
+let drv_cfg () =
+  let universe = ref [] and stmts = ref [] in
+  iter_lines (fun toks ->
+    match toks with
+    | "case" :: _ -> print_endline (String.concat " " toks); stmts := []
+    | "cfguniverse" :: u -> universe := List.map str_tok u
+    | "cfgstmts" :: l -> stmts := List.map parse_stmt l
+    | "cfglua" :: _ | ["cfgnone"] ->
+        (match klunok_load !stmts with
+         | None -> print_endline "cfg error"
+         | Some c ->
+             let set name l =
+               Printf.printf " %s=%s" name
+                 (String.concat "" (List.map (fun u -> if List.exists (fun x -> x = u) l then "1" else "0") !universe)) in
+             let opt name v = Printf.printf " %s=%s" name (match v with Some x -> tok_str x | None -> "-") in
+             print_string "cfg";
+             set "editors" c.fc_editors; set "project_roots" c.fc_project_roots; set "project_parents" c.fc_project_parents;
+             set "history" c.fc_history; set "excluded" c.fc_excluded; set "included" c.fc_included; set "cluded" c.fc_cluded;
+             opt "store" c.fc_store_root; opt "pstore" c.fc_project_store_root; opt "unstable" c.fc_unstable_root;
+             opt "queue" c.fc_queue_path; opt "journal" c.fc_journal_path; opt "jpat" c.fc_journal_pattern;
+             opt "vpat" c.fc_version_pattern; opt "offsets" c.fc_offset_root;
+             Printf.printf " deb=%s plen=%s maxpid=%s elf=%s qguess=%s" (string_of_coqz c.fc_debounce)
+               (string_of_coqz c.fc_path_length_guess) (string_of_coqz c.fc_max_pid_guess) (string_of_coqz c.fc_elf_guess)
+               (string_of_coqz c.fc_queue_size_guess);
+             List.iteri (fun i v -> opt (Printf.sprintf "ev%d" i) v) c.fc_ev;
+             print_newline ())
+    | _ -> failwith ("cfg: bad line: " ^ String.concat " " toks))
